@@ -266,7 +266,7 @@ def gen_unit(gen_dir, index, specs, fname, prop, path, extra_harness='', debug=F
     else:
         L.append('  bg_scratch_row.valid = nondet_bg_bool(); bg_scratch_row.owner = 0; bg_scratch_row.from = 0; bg_cur_adj = 0; bg_ghost_frontier.a = 0;')
     for t in ('VLabel', 'NoLabel', 'uint', 'real'):
-        L.append('  bg_scratch_val_%s.valid = 0;' % t)
+        L.append('  bg_scratch_val_%s.valid = 0; bg_scratch_val_%s.out = 0;' % (t, t))
     if extra_harness:
         L.append(extra_harness)
     args = []
